@@ -47,8 +47,6 @@ def setup_env():
     warnings.filterwarnings('ignore')
     try:
         import pydicom.config
-        pydicom.config.settings.reading_validation_mode = pydicom.config.IGNORE
-        pydicom.config.settings.writing_validation_mode = pydicom.config.IGNORE
     except Exception:
         pass
 
@@ -245,11 +243,14 @@ def obligations_file(imports, case_type, case_terms, checks):
     is computed by vm_compute, printed, and asserted empty with a kernel-checked Example."""
     txt = [CASE_HEADER, imports, 'Open Scope N_scope.\n',
            'Definition cases : list %s :=\n  [ %s ].\n' % (case_type, '\n  ; '.join(case_terms))]
-    for name, fn in checks:
+    for chk in checks:
+        name, fn = chk[0], chk[1]
         txt.append('Definition bad_%s := Eval vm_compute in failing %s cases.\nPrint bad_%s.\n'
                    % (name, fn, name))
-    for name, _fn in checks:
-        txt.append('Example ok_%s : bad_%s = []. Proof. vm_compute. reflexivity. Qed.\n' % (name, name))
+    for chk in checks:
+        if len(chk) > 2 and chk[2] == 'stat':
+            continue
+        txt.append('Example ok_%s : bad_%s = []. Proof. vm_compute. reflexivity. Qed.\n' % (chk[0], chk[0]))
     return ''.join(txt)
 
 
@@ -259,21 +260,24 @@ def run_sharded(run, prefix, imports, case_type, terms, checks, size=300):
     for k, g in enumerate(groups):
         run.add('%s_%d' % (prefix, k), obligations_file(imports, case_type, g, checks))
     res = run.compile_all()
-    failing = dict((name, []) for name, _ in checks)
+    failing = dict((chk[0], []) for chk in checks)
     broken = []
     n_obl = 0
     n_ok = 0
     for k, g in enumerate(groups):
         rc, out, _dt = res['%s_%d' % (prefix, k)]
-        for name, _ in checks:
-            n_obl += 1
+        for chk in checks:
+            name = chk[0]
+            stat = len(chk) > 2 and chk[2] == 'stat'
+            if not stat:
+                n_obl += 1
             lst = parse_printed_list(out, 'bad_' + name)
             if lst is None:
                 broken.append(('%s_%d' % (prefix, k), out[-1500:]))
                 continue
             if lst:
                 failing[name].extend(k * size + i for i in lst)
-            else:
+            elif not stat:
                 n_ok += 1
     # the files are compiled once; drop them from the pending list
     run.files = []
